@@ -220,20 +220,20 @@ template<class X, class Y> void mirror_laws(X const& x, Y const& y, std::string 
 	++g_po; if(static_cast<bool>(x == y) != static_cast<bool>(y == x)) { bad("== is not symmetric"); }
 	++g_po; if(static_cast<bool>(x != y) == static_cast<bool>(x == y)) { bad("!= is not the negation of =="); }
 }
-static void partially_ordered() {
-	if constexpr(D == 1 || D == 2) {
+template<int DD> void partially_ordered_t() {
+	if constexpr(DD == 1 || DD == 2) {
 		double const vals[3] = {0.0, 1.0, std::numeric_limits<double>::quiet_NaN()};
-		std::vector<idx> ext = D == 1 ? std::vector<idx>{3} : std::vector<idx>{2, 2};
+		std::vector<idx> ext = DD == 1 ? std::vector<idx>{3} : std::vector<idx>{2, 2};
 		idx const n = prod(ext); long tot = 1; for(idx i = 0; i < n; ++i) { tot *= 3; }
 		for(long ca = 0; ca < tot; ++ca) { for(long cb = 0; cb < tot; ++cb) {
-			multi::array<double, D> a(vo::make_extensions<D>(ext)), b(vo::make_extensions<D>(ext));
+			multi::array<double, DD> a(vo::make_extensions<DD>(ext)), b(vo::make_extensions<DD>(ext));
 			long qa = ca, qb = cb; for(idx i = 0; i < n; ++i) { a.data_elements()[i] = vals[qa % 3]; b.data_elements()[i] = vals[qb % 3]; qa /= 3; qb /= 3; }
 			std::string rp = "po/" + std::to_string(ca) + "/" + std::to_string(cb);
 			mc::cur_set("partially-ordered", rp);
 			mirror_laws(a, b, "array vs array", rp);
 			mirror_laws(a(), b(), "view vs view", rp);
 			mirror_laws(a, b(), "array vs view", rp);
-			if constexpr(D == 2) { mirror_laws(a[0], b[1], "row vs row", rp); mirror_laws(a.rotated()[1], b.rotated()[0], "column vs column", rp); }
+			if constexpr(DD == 2) { mirror_laws(a[0], b[1], "row vs row", rp); mirror_laws(a.rotated()[1], b.rotated()[0], "column vs column", rp); }
 		} }
 		mc::R.add("partial_order_mirror_laws", g_po);
 	}
@@ -275,7 +275,7 @@ int main(int argc, char** argv) {
 		mc::R.add("fancy_dereferences", fancy::g.deref);
 		if(fancy::g.oob_deref || fancy::g.null_deref || fancy::g.null_arith) { mc::R.violation("D" + std::to_string(D) + "|fancy-pointer|provenance", mc::J().s("harness", "cmpmc").s("replay", "fancy").s("detail", fancy::g.first).str()); }
 #endif
-		if(wide && shard == 0 && only.empty()) { partially_ordered(); }
+		(void)shard; if(wide && shard == 0 && only.empty()) { partially_ordered_t<D>(); }
 		mc::R.add("evaluations", g_evals + g_po); mc::R.add("pairs", g_pairs); mc::R.add("distinct_nontrivial", g_nontrivial);
 		mc::R.note("D=" + std::to_string(D) + ": logical values=" + std::to_string(vals.size()) + " ordered pairs=" + std::to_string(g_pairs) + " representation pairs=" + std::to_string(rps.size()) + " x4 constness" + (wide ? " (incl. every axis permutation of the storage)" : "") + (nshards > 1 ? " shard " + std::to_string(shard) + "/" + std::to_string(nshards) + " of the left operands" : ""));
 		mc::R.emit(stdout);
